@@ -99,8 +99,16 @@ func expectedCLIOutput(lines []rline.Line, pred []rline.Call, renderCache map[st
 	return b.String(), heldAtEOF, true
 }
 
-func TestVerifC02CLI(t *testing.T) {
-	r := h.Start("C02")
+func TestVerifC02CLI(t *testing.T) { runCLIStreams(t, "C02") }
+
+// TestVerifC07CLI: the command's resume loop (remainder fed back in front of the
+// unread input) yields exactly one rendering per dump of the stream, each equal to
+// the rendering of that dump alone, nothing skipped and nothing scanned twice - the
+// same stream product and deliveries as the C02 part, judged for C07.
+func TestVerifC07CLI(t *testing.T) { runCLIStreams(t, "C07") }
+
+func runCLIStreams(t *testing.T, prop string) {
+	r := h.Start(prop)
 	defer r.Finish(func(s string) { t.Error(s) })
 	os.Setenv("GOTRACEBACK", "all")
 	r.Set("rule_cli", "every stream of the junk x dump product through the real process() (colour off, no rebase), delivered at once and line by line; when it returns nil its output must be the input with each model dump replaced by the rendering of that dump alone (differential); a subset through the real pp binary must print the same bytes and exit 0 iff process() returned nil")
@@ -135,7 +143,7 @@ func TestVerifC02CLI(t *testing.T) {
 			v := r.Check(func() *h.Viol {
 				out, err, p := plainProcess(mk())
 				mkv := func(fp, msg string) *h.Viol {
-					v := &h.Viol{Fingerprint: "C02/cli/" + fp, Summary: fmt.Sprintf("process() on %s (delivery %d): %s", name, di, msg), Key: key, Kind: "cli", Expected: trunc(want), Observed: trunc(out)}
+					v := &h.Viol{Fingerprint: prop + "/cli/" + fp, Summary: fmt.Sprintf("process() on %s (delivery %d): %s", name, di, msg), Key: key, Kind: "cli", Expected: trunc(want), Observed: trunc(out)}
 					v.SetInput(input)
 					return v
 				}
@@ -157,6 +165,9 @@ func TestVerifC02CLI(t *testing.T) {
 				if len(held) != 0 {
 					if out == want+string(held) {
 						return nil
+					}
+					if out == want && prop != "C02" {
+						return nil // the withheld preamble at the end of the stream is C02's subject
 					}
 					if out == want {
 						// known finding: a stream ending right after a race preamble keeps it withheld
@@ -188,7 +199,7 @@ func TestVerifC02CLI(t *testing.T) {
 			out, err, _ := plainProcess(bytes.NewReader(input))
 			key := "pp: " + name
 			if so.String() != out || (runErr == nil) != (err == nil) {
-				v := &h.Viol{Fingerprint: "C02/cli/pp-differs-from-process", Summary: fmt.Sprintf("pp on %s: stdout/exit (%v) differ from process() (%v)", name, runErr, err), Key: key, Expected: trunc(out), Observed: trunc(so.String()), Reproduced: 5}
+				v := &h.Viol{Fingerprint: prop + "/cli/pp-differs-from-process", Summary: fmt.Sprintf("pp on %s: stdout/exit (%v) differ from process() (%v)", name, runErr, err), Key: key, Expected: trunc(out), Observed: trunc(so.String()), Reproduced: 5}
 				v.SetInput(input)
 				r.Report(v)
 			}
